@@ -208,6 +208,7 @@ fn fulfill_promise(
     };
 
     // Trigger handlers synchronously
+    let _handlers_guard = guard_pending_handlers(interp, &handlers);
     for handler in handlers {
         trigger_handler(interp, handler, &value, true)?;
     }
@@ -244,6 +245,7 @@ fn reject_promise(
     }
 
     // Trigger handlers synchronously
+    let _handlers_guard = guard_pending_handlers(interp, &handlers);
     for handler in handlers {
         trigger_handler(interp, handler, &reason, false)?;
     }
@@ -269,6 +271,23 @@ pub fn reject_promise_value(
     reason: JsValue,
 ) -> Result<(), JsError> {
     reject_promise(interp, promise, reason)
+}
+
+/// The handlers taken out of a settling promise are no longer traced through it: root their
+/// callbacks and result promises until every one of them has run (an earlier handler's callback
+/// can allocate and trigger a collection while later handlers are still waiting)
+fn guard_pending_handlers(interp: &mut Interpreter, handlers: &[PromiseHandler]) -> Guard<JsObject> {
+    let guard = interp.heap.create_guard();
+    for handler in handlers {
+        guard.guard(handler.result_promise.clone());
+        if let Some(JsValue::Object(ref cb)) = handler.on_fulfilled {
+            guard.guard(cb.clone());
+        }
+        if let Some(JsValue::Object(ref cb)) = handler.on_rejected {
+            guard.guard(cb.clone());
+        }
+    }
+    guard
 }
 
 /// Trigger a promise handler
